@@ -7,7 +7,8 @@ import json, os, shutil, subprocess, sys
 args = [a for a in sys.argv[1:] if not a.startswith("--")]
 seed = next((sys.argv[i + 1] for i, a in enumerate(sys.argv) if a == "--seed"), "1")
 name = args[0]
-sd = os.path.join("/verif/seeded", name)
+VERIF = os.path.dirname(os.path.dirname(os.path.abspath(__file__)))
+sd = os.path.join(VERIF, "seeded", name)
 props = args[1:] or [json.load(open(os.path.join(sd, "meta.json")))["property"]]
 scratch = f"/tmp/seeded_{name}"
 shutil.rmtree(scratch, ignore_errors=True)
@@ -20,7 +21,7 @@ try:
     print("patch does not apply:", ap.stdout[-400:], ap.stderr[-400:])
     sys.exit(2)
   for p in props:
-    r = subprocess.run(["/venv/bin/python", "-m", "vf.check", p, "--tier", "quick"], cwd="/verif", capture_output=True, text=True,
+    r = subprocess.run(["/venv/bin/python", "-m", "vf.check", p, "--tier", "quick"], cwd=VERIF, capture_output=True, text=True,
                        env=dict(os.environ, VF_NO_EVIDENCE="1", PYTHONPATH=scratch, VERIF_SEED=seed, VF_REPLAY_DIR=os.path.join(scratch, "replays")))
     lines = [l for l in r.stdout.splitlines() if l.startswith("VIOLATION") or l.startswith("[")]
     print(name, p, "exit", r.returncode, lines[-1] if lines else r.stdout[-300:] + r.stderr[-300:])
